@@ -243,3 +243,38 @@ def check_scaling(pb, obs, lb_present=True, ub_present=True):
         if ubv[k] != du[k] * ub[i]: V.append(("C15.transform", "x_ub[%d]" % k))
         if ubs[k] != du[k] * d[i]: V.append(("C15.transform", "x_ub_scaling[%d] = %s expected %s" % (k, ubs[k], du[k] * d[i])))
     return V
+
+
+def check_kkt_state(data_obs, kkt_obs, backend):
+    """C04/C13 consistency oracle at solver level: the KKT matrix held by the solver equals the operator K_mode recomputed from the
+    solver's CURRENT (scaled) data and the scalings stored in the KKT object.  A block whose refresh was forgotten shows up here."""
+    from props import c13 as K13
+    V = []
+    t = data_obs["dims"].split(); n, p, m = int(t[0]), int(t[1]), int(t[2])
+    Pd, _, _ = pmat(data_obs["P_utri"]); ATd, _, _ = pmat(data_obs["AT"]); GTd, _, _ = pmat(data_obs["GT"])
+    lbi = [int(x) for x in data_obs["x_lb_idx"].split()[1:]]; ubi = [int(x) for x in data_obs["x_ub_idx"].split()[1:]]
+    P = {(i, j): Pd[i][j] for i in range(n) for j in range(i, n)}
+    A = {(k, i): ATd[i][k] for i in range(n) for k in range(p)}
+    G = {(k, i): GTd[i][k] for i in range(n) for k in range(m)}
+    lbf = [i in lbi for i in range(n)]; ubf = [i in ubi for i in range(n)]
+    pr = K13.Prob(n, p, m, P, A, G, lbf, ubf, pvec(data_obs["x_lb_scaling"]), pvec(data_obs["x_ub_scaling"]))
+    vals = [kkt_obs[k] for k in ("kkt.rho", "kkt.delta")]
+    if any(x == "?" for x in vals): return [("C04.kkt-undefined", "KKT rho/delta undefined")]
+    st = K13.State(pr, pf(kkt_obs["kkt.rho"]), pf(kkt_obs["kkt.delta"]))
+    try:
+        st.s = pvec(kkt_obs["kkt.s"]); st.z = [1 / x for x in pvec(kkt_obs["kkt.z_inv"])]
+        st.slb = pvec(kkt_obs["kkt.s_lb"]); st.zlb = [1 / x for x in pvec(kkt_obs["kkt.z_lb_inv"])]
+        st.sub = pvec(kkt_obs["kkt.s_ub"]); st.zub = [1 / x for x in pvec(kkt_obs["kkt.z_ub_inv"])]
+    except (TypeError, ZeroDivisionError):
+        return [("C04.kkt-undefined", "KKT scalings undefined or zero: %s" % {k: kkt_obs[k] for k in kkt_obs if k.startswith("kkt.") and k != "kkt.K"})]
+    want = K13.K_mode(st, backend)
+    t = kkt_obs["kkt.K"].split(); nk = int(t[0]); vals = [pf(x) for x in t[1:]]
+    if nk != len(want): return [("C04.kkt-shape", "KKT size %d expected %d" % (nk, len(want)))]
+    q = 0
+    for i in range(nk):
+        for j in range(i + 1):
+            if vals[q] != want[i][j]:
+                V.append(("C04.kkt-stale", "KKT(%d,%d) = %s but the current data and scalings give %s" % (i, j, vals[q], want[i][j])))
+                if len(V) >= 3: return V
+            q += 1
+    return V
